@@ -5,13 +5,16 @@ from oracle_util import *  # noqa
 from protocol import from_real, to_real
 
 ID = "C05"
-LEAN_MODULE = None
+LEAN_MODULE = "SCoda.Props.C05"
 CLAUSES = [
-    ("every remaining event lies on a tick divisible by at least one step size", None),
-    ("every event moved by at most the largest step size", None),
-    ("notes pair one-to-one per (channel, pitch), positive duration, no overlap", None),
-    ("non-note events are all kept", None),
-    ("an isolated note is dropped only when no grid position for its end exceeds its quantised start; survivors keep pitch/channel/velocity", None),
+    ("every remaining event lies on a tick divisible by at least one step size; quantise never fails on well-formed input",
+     ["SCoda.C05.on_grid", "SCoda.C05.total", "SCoda.C05.candidates_spec", "SCoda.C05.fmd_spec"]),
+    ("every remaining message is an input message that moved by at most the largest step size, everything else about it unchanged (so survivors keep pitch, channel, velocity)",
+     ["SCoda.C05.displacement"]),
+    ("notes pair one-to-one per (channel, pitch) — the output is well-formed and time-sorted, so same-key notes do not overlap — with positive duration, "
+     "including the same pitch on several channels", ["SCoda.C05.wf_out", "SCoda.C05.positive_durations", "SCoda.C05.sorted_out"]),
+    ("non-note events are all kept", ["SCoda.C05.others_kept"]),
+    ("an isolated note is dropped only when no grid position for its end exceeds its quantised start", None),
 ]
 RULE = ("well-formed multi-channel note sets (<=8 notes, 3 channels, ticks<200, 30% very short notes, abutting notes) with "
         "non-note events x step lists from the defaults and {2,3,4,5,7,12,16,24}; non-trivial = at least two notes or a note shorter than the largest step")
